@@ -487,3 +487,65 @@ def chain_terms(tier: str, max_nodes=None):
             k = max(1, (tgt - 1) // per)
             push(f"({n1}.{n2})^{k}", _wrap_n(lambda t: f(g(t)), x, k))
     return out
+
+
+# ---------------------------------------------------------------- TWINS
+def twins_terms(tier: str):
+    """Two operands that are nearly, but not, the same expression (an n-ary node and a proper prefix of it, the same
+    node with another parameter, swapped operands, the same children under another constructor, adjacent constants),
+    side by side under every two-argument constructor, bare and under the same wrapper: the inputs on which a rule
+    that has to decide whether two sub-expressions are 'the same' (like-term collection, cancelling, merging of
+    powers / logarithms / exponentials of one base) goes wrong if its notion of sameness is too coarse."""
+    z = V("z")
+    pairs = [
+        (Add(x, y), Add(x, y, z)), (Mul(x, y), Mul(x, y, z)), (Add(x, y), Add(y, x)), (Mul(x, y), Mul(x, y, y)),
+        (Add(x, y), Add(x, y, C(0))), (Mul(x, y), Mul(x, y, C(1))), (Add(x), Add(x, x)),
+        (NPow(x, 2), NPow(x, 3)), (Root(x, 2), Root(x, 3)), (Exp(x, 2), Exp(x, 3)), (Log(x, 2), Log(x, 10)), (Exp(x), Exp(x, 2)),
+        (Add(x, y), Mul(x, y)), (Minus(x, y), Div(x, y)), (Sin(x), Cos(x)), (NPow(x, 2), Root(x, 2)),
+        (Minus(x, y), Minus(y, x)), (Div(x, y), Div(y, x)), (Pow(x, y), Pow(y, x)),
+        (C(1), C(1.0000000000000002)), (Add(x, C(2)), Add(x, C(2.0000000000000004))), (x, y), (x, Neg(x)), (x, Recip(x)),
+    ]
+    wrappers = [lambda u: u, lambda u: Pow(u, z), lambda u: Pow(u, C(3)), lambda u: Pow(z, u), lambda u: Exp(u),
+                lambda u: Log(u), lambda u: NPow(u, 2), lambda u: Root(u, 3), lambda u: Neg(u), lambda u: Recip(u),
+                lambda u: Pow(C(2), u), lambda u: Log(u, 2)]
+    if tier != "thorough":
+        wrappers = wrappers[:8]
+    out = []
+    for a, b in pairs:
+        for p, q in ((a, b), (b, a)):
+            for w in wrappers:
+                wp, wq = w(p), w(q)
+                out.append(Mul(wp, wq))
+                out.append(Add(wp, wq))
+                out.append(Minus(wp, wq))
+                out.append(Div(wp, wq))
+                if tier == "thorough":
+                    out.append(Pow(wp, wq))
+                    out.append(Mul(wp, C(5), wq))
+                    out.append(Add(wp, C(5), wq))
+    return list(dict.fromkeys(out))
+
+
+# ---------------------------------------------------------------- PARAM through a layer
+def param_layer_terms(tier: str):
+    """Two parameterised nodes with one arithmetic node between them, Outer_p(Layer(Inner_q(x), y)), for every
+    pairing of the parameterised constructors, several parameter pairs (equal, unequal, default base) and every
+    position in every one-layer context: rules that look through a sum / difference / product / quotient / sign for
+    a matching inner node must match the parameters too."""
+    bases = (M.DEFAULT_BASE, 2, 10, 0.5) if tier != "thorough" else (M.DEFAULT_BASE, 2, 10, 0.5, 3)
+    ns = (2, 3, 4) if tier != "thorough" else (2, 3, 4, 6)
+    layers = [lambda u: Add(u, y), lambda u: Add(y, u), lambda u: Minus(u, y), lambda u: Minus(y, u), lambda u: Mul(u, y),
+              lambda u: Mul(y, u), lambda u: Div(u, y), lambda u: Div(y, u), lambda u: Neg(u), lambda u: Recip(u),
+              lambda u: Mul(C(2), u), lambda u: Add(y, Neg(u)), lambda u: Mul(y, Recip(u)), lambda u: Add(u, C(1))]
+    makers = {"exp": (Exp, bases), "log": (Log, bases), "npow": (NPow, ns), "root": (Root, ns)}
+    combos = [("exp", "log"), ("log", "exp"), ("exp", "exp"), ("log", "log"), ("npow", "root"), ("root", "npow"),
+              ("root", "root"), ("npow", "npow"), ("log", "npow"), ("log", "root"), ("exp", "npow"), ("npow", "exp"), ("root", "exp")]
+    out = []
+    for o, i in combos:
+        mo, po = makers[o]
+        mi, pi = makers[i]
+        for p in po:
+            for q in pi:
+                for lay in layers:
+                    out.append(mo(lay(mi(x, q)), p))
+    return list(dict.fromkeys(out))
